@@ -479,3 +479,39 @@ def warm_up(scratch):
     if _global_state._latest_global_states or _global_state.state().active:
         raise HarnessError("warm-up left snapshot state behind")
     _WARM = True
+
+
+# ======================================================================= external lookup probe
+
+
+def _extprobe_child(world, storage_rel, names):
+    os.chdir(world)
+    assert_sut_is_repo()
+    from inline_snapshot import _external, _global_state
+
+    st = _global_state.state()
+    st.storage = _external.DiscStorage(os.path.join(world, storage_rel))
+    out = {}
+    import hashlib
+
+    for n in names:
+        try:
+            data = _external.external(n)._load_value()
+            out[n] = ["ok", hashlib.sha256(data).hexdigest()]
+        except BaseException as e:
+            out[n] = ["exc", type(e).__name__]
+    return out
+
+
+def run_extprobe(files, storage_rel, names, scratch, timeout=30.0):
+    """load external(name) for every name through the real lookup code, on a private copy of the tree"""
+    import shutil
+
+    world = os.path.join(scratch, "xp")
+    shutil.rmtree(world, ignore_errors=True)
+    write_tree(world, files)
+    status, res = fork_run(lambda: _extprobe_child(world, storage_rel, names), timeout)
+    shutil.rmtree(world, ignore_errors=True)
+    if status != "ok":
+        raise HarnessError(f"external probe child: {status}")
+    return res
